@@ -13,7 +13,8 @@ EXPLANATION = (
     "written from the language reference: T1 (BinOp, signed/unsigned/float) -> lir instruction / IntCmp / FloatCmp -> cranelift "
     "builder method / IntCC / FloatCC; T2 operand order of every non-commutative row (left stays left from mir through lir to the "
     "builder call); T3 width/signedness diagonals literal->IrValue, Primitive->IrType, IrType->cranelift type, IrValue->(type,value), "
-    "IrType::bytes; T4 the four places that default an unconstrained literal all say i32 / f64."
+    "IrType::bytes; T4 the four places that default an unconstrained literal all say i32 / f64; T5 in the MIR lowerer no lazily lowered "
+    "operand value is held un-stored across the visit of another sub-expression (so `x + { x = 10; x }` reads x first)."
 )
 ASSUMPTIONS = [
     "cranelift's documented instruction semantics (iadd wraps, sdiv truncates toward zero, IntCC/FloatCC meanings)",
@@ -579,6 +580,17 @@ def rule_t4(F):
     return r
 
 
+def rule_t5(F):
+    """Operand evaluation: the left operand's value is fixed before the right operand runs (shared with C08.O4)."""
+    from . import c08
+    r = c08.rule_o4(F)
+    r.rule = "C01.T5"
+    r.desc = "operands are stored in visit order: no lazily lowered value is read after a later sub-expression ran"
+    for v in r.violations:
+        v.rule = "C01.T5"
+    return r
+
+
 def rules(ctx):
     F = ctx["F"]
-    return [rule_t1(F), rule_t2(F), rule_t3(F), rule_t4(F)]
+    return [rule_t1(F), rule_t2(F), rule_t3(F), rule_t4(F), rule_t5(F)]
